@@ -100,6 +100,31 @@ def build_corpus(base: Path):
         p.parent.mkdir(parents=True, exist_ok=True)
         p.write_bytes(data)
         items.append((str(p), rel, False))
+    # shapes whose analysis could lean on iteration order or on state another file left behind: an arrow function whose
+    # parameter list holds another arrow (two transitions compete on '=>' while the group is open), a file that leaves
+    # braces open, files that start with surplus closers
+    special = {
+        "same/arrow_in_params.js": "const retry = (task, onError = (e) => null) => {\n  return task(onError);\n};\nfunction after(a) {\n  return a;\n}\n",
+        "same/arrow_in_params.ts": "const retry = (task: T, onError: F = (e: E) => null): R => {\n  return task(onError);\n};\nfunction after(a: number): number {\n  return a;\n}\n",
+        "same/region_end.h": "}\nint tail(int a) {\n  return a;\n}\n}\n",
+        "same/region_end.java": "  }\n  void tail(int a) {\n    a++;\n  }\n}\n",
+        "same/region_end.js": "}\nfunction tail(a) {\n  return a;\n}\n});\n",
+    }
+    for rel, text in special.items():
+        p = root / rel
+        p.parent.mkdir(parents=True, exist_ok=True)
+        p.write_text(text)
+        items.append((str(p), rel, False))
+    openers = {
+        "malformed/region_begin.h": "namespace n {\nstruct s {\nint head(int a) {\n  if (a) {\n    return a;\n",
+        "malformed/region_begin.java": "class A {\n  void head(int a) {\n    if (a > 0) {\n      a++;\n",
+        "malformed/region_begin.js": "describe('x', function () {\n  function head(a) {\n    if (a) {\n      return a;\n",
+    }
+    for rel, text in openers.items():
+        p = root / rel
+        p.parent.mkdir(parents=True, exist_ok=True)
+        p.write_text(text)
+        items.append((str(p), rel, True))
     return items
 
 
